@@ -123,7 +123,6 @@ func check(c Case) vk.Verdict {
 			}
 			continue
 		}
-		edge := w.live && now == w.end
 		// roll the model's window
 		if !w.live {
 			w.live, w.end = true, now+exp
@@ -158,10 +157,10 @@ func check(c Case) vk.Verdict {
 		ctx := fmt.Sprintf("op %d (key %s limit %d) at t=%d, %s/%s exp=%ds window end=%d admitted=%d all=%d prev=%d/%d", i, op.Key, limit, now-1_000_000-uint32(c.T0), c.Algo, c.Store, c.Exp, w.end-1_000_000-uint32(c.T0), w.adm, w.all, w.prevAdm, w.prevAll)
 		if limit > 0 {
 			if c.Algo == "fixed" {
-				if ran && w.adm >= limit && !edge {
+				if ran && w.adm >= limit {
 					return vk.Failf("%s: over-admission: %d requests already reached the handler in this window", ctx, w.adm)
 				}
-				if !ran && w.all < limit && !edge {
+				if !ran && w.all < limit {
 					return vk.Failf("%s: rejected (status %d) although only %d requests (rejected ones included) were counted in this window", ctx, status, w.all)
 				}
 			} else {
@@ -174,10 +173,10 @@ func check(c Case) vk.Verdict {
 				}
 				rateFloor := math.Floor(float64(loPrev)*weight) + float64(w.adm+1)
 				rateReal := float64(hiPrev)*weight + float64(w.all+1)
-				if ran && rateFloor > float64(limit) && !edge {
+				if ran && rateFloor > float64(limit) {
 					return vk.Failf("%s: over-admission: floor(%d*%.3f)+%d+1 = %.0f > %d", ctx, loPrev, weight, w.adm, rateFloor, limit)
 				}
-				if !ran && rateReal <= float64(limit) && !edge {
+				if !ran && rateReal <= float64(limit) {
 					return vk.Failf("%s: rejected (status %d) although %d*%.3f+%d+1 = %.3f <= %d", ctx, status, hiPrev, weight, w.all, rateReal, limit)
 				}
 			}
@@ -206,7 +205,7 @@ func check(c Case) vk.Verdict {
 			if err != nil {
 				return vk.Failf("%s: 429 without a numeric Retry-After (%q)", ctx, r.Response.Header.Peek("Retry-After"))
 			}
-			if !edge && uint32(ra) != w.end-now {
+			if uint32(ra) != w.end-now {
 				return vk.Failf("%s: Retry-After %d, want %d (time until the window resets)", ctx, ra, w.end-now)
 			}
 		}
